@@ -67,12 +67,14 @@ def oraclePayload (denom purchase redemption : String) : String :=
   "{\"post_rates\":{\"denom\":\"" ++ denom ++ "\",\"purchase_rate\":\"" ++ purchase
     ++ "\",\"redemption_rate\":\"" ++ redemption ++ "\"}}"
 
-/-- `update_oracle_msgs`: rates are read from the store `s`, the oracle address is unwrapped -/
-def updateOracleMsgs (s : CState) (env : Env) (cfg : Config) : R (List SubMsg) := do
-  let rates ← getRates s
-  let payload := oraclePayload cfg.lstDenom (decimalToString rates.2) (decimalToString rates.1)
-  let o ← loadSome cfg.proto.oracle (.panic "A05")
-  pure [plain (.wasmExec env.contract o payload)]
+/-- `update_oracle_msgs`: nothing without an oracle; rates are read from the store `s` -/
+def updateOracleMsgs (s : CState) (env : Env) (cfg : Config) : R (List SubMsg) :=
+  match cfg.proto.oracle with
+  | none => .ok []
+  | some o => do
+    let rates ← getRates s
+    let payload := oraclePayload cfg.lstDenom (decimalToString rates.2) (decimalToString rates.1)
+    pure [plain (.wasmExec env.contract o payload)]
 
 def checkStopped (cfg : Config) : R Unit := ensure (!cfg.stopped) .halted
 
@@ -129,18 +131,17 @@ def liquidStake (s : CState) (env : Env) (info : Info) (amount : Nat)
   checkExpected mintAmount expected
   let mintMsg := plain (.mint env.contract cfg.lstDenom mintAmount env.contract)
   let r1 ← ibcTransferSubMsg s env cfg.native.staker ⟨cfg.proto.ibcDenom, amount⟩ none
-  -- computed from the store *before* the state is saved (execute.rs:240 vs :245)
-  let oracle ← updateOracleMsgs r1.1 env cfg
   let n' ← add128 "A09a" st.totalNative amount
   let l' ← add128 "A09b" st.totalLst mintAmount
   let s2 := { r1.1 with st := { st with totalNative := n', totalLst := l' } }
+  -- computed from the store after the state has been saved
+  let oracle ← updateOracleMsgs s2 env cfg
   let base := [mintMsg] ++ oracle ++ [r1.2]
   if isProto then
     pure (s2, base ++ [plain (.msgSend env.contract mintToAddr [⟨cfg.lstDenom, mintAmount⟩])])
   else do
     let id2 ← add64 "A10" r1.2.id 1
-    -- execute.rs:273 passes `amount`, not `mint_amount`
-    let r3 ← ibcTransferSubMsg s2 env mintToAddr ⟨cfg.lstDenom, amount⟩ (some id2)
+    let r3 ← ibcTransferSubMsg s2 env mintToAddr ⟨cfg.lstDenom, mintAmount⟩ (some id2)
     pure (r3.1, base ++ [r3.2])
 
 def findReq (reqs : List Req) (batch : Nat) (user : String) : Option Req :=
@@ -270,16 +271,20 @@ def acceptOwnership (s : CState) (env : Env) (info : Info) : R Out := do
 def paginate {α} (m : AMap α) (startAfter : Option Nat) (limit : Option Nat) (f : α → Bool) : List α :=
   (((m.after startAfter).map (·.2)).filter f).take (limit.getD U32.max)
 
-def loadPackets (s : CState) (receiver : String) : List Nat → R (List Packet)
-  | [] => .ok []
-  | id :: rest =>
-    match s.inflight.find? id with
-    | none => .error (.std "NotFound")
-    | some p =>
-      if p.receiver ≠ receiver then .error .invalidReceiver
-      else match loadPackets s receiver rest with
-        | .error e => .error e
-        | .ok ps => .ok (p :: ps)
+/-- the forced-recovery loop: ids already collected are skipped (a packet listed twice is
+recovered once); `acc` holds the packets collected so far, in order -/
+def loadPacketsAux (s : CState) (receiver : String) : List Nat → List Packet → R (List Packet)
+  | [], acc => .ok acc
+  | id :: rest, acc =>
+    if acc.any (fun p => p.seq = id) then loadPacketsAux s receiver rest acc
+    else match s.inflight.find? id with
+      | none => .error (.std "NotFound")
+      | some p =>
+        if p.receiver ≠ receiver then .error .invalidReceiver
+        else loadPacketsAux s receiver rest (acc ++ [p])
+
+def loadPackets (s : CState) (receiver : String) (ids : List Nat) : R (List Packet) :=
+  loadPacketsAux s receiver ids []
 
 def sumAmounts (site : String) : List Packet → Nat → R Nat
   | [], acc => .ok acc
@@ -340,8 +345,9 @@ def updateConfig (s : CState) (info : Info) (native : Option UnsafeNative) (prot
   let proto' ← optValidate proto (·.validate) cfg.proto
   let fee' ← optValidate fee (·.validate proto') cfg.feeCfg
   let mons' ← optValidate monitors (validateAddresses · proto'.accountPrefix) cfg.monitors
+  let bp' ← optValidate batchPeriod validatePeriod cfg.batchPeriod
   let cfg' := { cfg with native := nat', proto := proto', feeCfg := fee', monitors := mons',
-                         batchPeriod := batchPeriod.getD cfg.batchPeriod }
+                         batchPeriod := bp' }
   pure ({ s with config := cfg' }, [])
 
 def findCoin (funds : List Coin) (denom : String) : Option Coin :=
@@ -368,7 +374,7 @@ def receiveRewards (s : CState) (env : Env) (info : Info) : R Out := do
   checkHookSender cfg cfg.native.rewardCollector info.sender
   let coin ← loadSome (findCoin info.funds cfg.proto.ibcDenom) (.payment "NoFunds")
   let amount := coin.amount
-  let fee ← mulRatio "A31" cfg.feeCfg.fee amount 100000
+  let fee ← loadSome (checkedMulRatio cfg.feeCfg.fee amount 100000) .receiveRewardsTooSmall
   let afterFees ← loadSome (checkedSub amount fee) .receiveRewardsTooSmall
   let n' ← add128 "A33a" st.totalNative afterFees
   let r' ← add128 "A33b" st.totalReward amount
@@ -462,8 +468,9 @@ def instantiate (env : Env) (info : Info) (msg : InstantiateMsg) : R Out := do
   let feeCfg ← msg.feeCfg.validate proto
   let sub ← validateDenom msg.lstSubdenom
   let monitors ← validateAddresses msg.monitors msg.proto.accountPrefix
+  let bp ← validatePeriod msg.batchPeriod
   let cfg : Config := { native, proto, feeCfg, lstDenom := "factory/" ++ env.contract ++ "/" ++ sub,
-                        monitors, batchPeriod := msg.batchPeriod, stopped := true }
+                        monitors, batchPeriod := bp, stopped := true }
   let st : St := { totalNative := 0, totalLst := 0, pendingOwner := none, ownerMinTime := none,
                    totalReward := 0, rate := 1, totalFees := 0, ibcIdCounter := 0 }
   let due ← add64 "A15i" env.seconds cfg.batchPeriod
